@@ -161,6 +161,22 @@ def _run(ctx):
         run_and_validate(ctx, exe, ["script", sp, "@OUT", mode], tr, "%d serializer model behaviours, %s buffers" % (len(behs) + len(deep), mode),
                          count_as="replay")
 
+    #    ... histories of one AES object (constructor / setKey / cipher / invcipher in every order, two keys): all of length 4
+    aes_h = ctx.tlc_gen(SPEC, "Gen_AesObject.tla", "Gen_AesObject.cfg", jvm=JVM)
+    ctx.notes.append("Gen_AesObject: %d histories of length 4 of one AES object (exhaustive)" % len(aes_h))
+    ctx.sample({"kind": "AES object history replayed on one real object", "script": aes_h[len(aes_h) // 2]})
+    sp = ctx.tmp("gen_aesobj.jsonl")
+    write_script(sp, aes_h)
+    tr = ctx.tmp("gen_aesobj.ndjson")
+    run_and_validate(ctx, exe, ["script", sp, "@OUT", "exact"], tr, "%d AES object histories" % len(aes_h), count_as="replay")
+    #    ... and the hex pair on long inputs (text longer than 65536 characters), reported through its periodic structure
+    hexbig = [{"e": "HexBig", "n": n, "up": (n % 2 == 0), "delim": [ord(ch) for ch in dl], "rt": dl != "abc"}
+              for dl in ("", " ", "--", "abc") for n in (13108, 13109, 16384, 16385, 21846, 21847, 32768, 32769, 65535)]
+    sp = ctx.tmp("hexbig.jsonl")
+    write_script(sp, hexbig)
+    tr = ctx.tmp("hexbig.ndjson")
+    run_and_validate(ctx, exe, ["script", sp, "@OUT", "exact"], tr, "hex encode/decode of %d long pattern inputs" % len(hexbig), count_as="replay")
+
     # 3. code -> spec: seeded random calls ----------------------------------------------------------------------------------
     n_exec = 300 if quick else 5000
     for mode in ("exact", "guard"):
@@ -203,7 +219,7 @@ def _run(ctx):
         if ev:
             ctx.sample({"kind": "MD5 of 2^%d%+d bytes: one update() call and %d splits" % (ev["lg"], ev["delta"], ev["n"]), "one": ev["one"], "distinct_digests_of_splits": ev["splits"]})
     tr = ctx.tmp("random_md5aes.ndjson")
-    ok, lines = run_and_validate(ctx, exe, ["random", ctx.seed, 60 if quick else 1200, "@OUT", "exact", "Md5,Aes"], tr, "MD5 splits and AES blocks")
+    ok, lines = run_and_validate(ctx, exe, ["random", ctx.seed, 60 if quick else 1200, "@OUT", "exact", "Md5,Aes,AesObj"], tr, "MD5 splits and AES blocks")
     if ok:
         ev = next((json.loads(x) for x in lines if '"e":"Md5"' in x and '"mode":"all3"' in x), None)
         if ev:
@@ -230,6 +246,6 @@ def _run(ctx):
         "MD5: every split into <= 3 updates for messages <= 70 bytes, all two-way splits and random splits up to ~150 bytes; not every "
         "composition. Messages >= 2^29 bytes (bit count carries into its high word) are checked for split-independence (one update = "
         "pieces < 2^29 bytes = two/three updates) and, for 2^29 zero bytes, against the known digest - not against the TLA+ operator",
-        "inputs validated by TLC are short (<= ~150 bytes); RawDataToHexStr/HexStrToRawData lengths >= 65536 (uint16_t parameters) not exercised",
+        "inputs validated by TLC are short (<= ~150 bytes), except the hex pair on pattern inputs of 13108..65535 bytes, which is checked through the periodic structure of the text (first period, length, no deviation from periodicity) and the decoded bytes likewise",
         "operator<< / operator>> wrappers (incl. float/double) of the serializer are not driven, only append*/fetch*/skip/set_pos",
     ]
